@@ -1215,6 +1215,10 @@ func stringDataRule(c *Ctx, r *R) {
 					if len(call.Args) == 1 && nosp(c.Src(call.Args[0])) == "TypeSlice" {
 						bytes = true
 					}
+				default:
+					if c.bytesOfStringHelper(c.DeclOf(c.Callee(call))) {
+						bytes = true
+					}
 				}
 			}
 			return true
@@ -1441,7 +1445,16 @@ func ruleRepString(c *Ctx, r *R) {
 		}
 	}
 	r.check(anyContains(rets, "String(string(rune(v.num)))"), "convert rune->string", c.Pos(c.Func("Value.convert")), "string(rune(x))", "string(number) is not string(rune(x))")
-	r.check(anyContains(rets, "[]byte(Value.String(v))"), "convert string->[]byte", c.Pos(c.Func("Value.convert")), "[]byte(s)", "[]byte(string) is not Go's conversion of the string's bytes")
+	strBytes := anyContains(rets, "[]byte(Value.String(v))")
+	if cfd := c.Func("Value.convert"); cfd != nil && !strBytes {
+		ast.Inspect(cfd.Body, func(n ast.Node) bool {
+			if call, ok := n.(*ast.CallExpr); ok && len(call.Args) == 1 && c.bytesOfStringHelper(c.DeclOf(c.Callee(call))) && strings.Contains(nosp(c.Src(call.Args[0])), ".String()") {
+				strBytes = true
+			}
+			return true
+		})
+	}
+	r.check(strBytes, "convert string->[]byte", c.Pos(c.Func("Value.convert")), "[]byte(s)", "[]byte(string) is not Go's conversion of the string's bytes")
 	// ... or, whatever the temporaries are called and wherever the loop lives: Value.convert (or a
 	// new helper it calls) applies Go's string(x) to a []byte
 	bytesConv := false
@@ -2197,6 +2210,40 @@ func literalCapRule(c *Ctx, r *R) {
 		r.undecided("NEWSLICE capacity", c.Pos(sc.Clause), "no slice construction in the handler")
 		return
 	}
+	// ... and the constructors keep that array: a copy made with append / slices.Clone has the
+	// capacity the allocator rounds up to (spare room from 18 elements on), so two appends to
+	// the same literal write the same hidden element and s[:len(s)+1] is no longer an error
+	for _, fn := range []string{"NewSlice", "newSlice"} {
+		fd := c.Func(fn)
+		if fd == nil || fd.Body == nil {
+			continue
+		}
+		for _, h := range c.withHelpers(fd) {
+			ast.Inspect(h.Body, func(n ast.Node) bool {
+				as, ok := n.(*ast.AssignStmt)
+				if !ok || len(as.Lhs) != len(as.Rhs) {
+					return true
+				}
+				for i, l := range as.Lhs {
+					if _, isSlice := c.TypeOf(l).Underlying().(*types.Slice); !isSlice {
+						continue
+					}
+					if sl, ok := c.TypeOf(l).Underlying().(*types.Slice); !ok || !isNamed(sl.Elem(), "Value") {
+						continue
+					}
+					call, ok := unparen(as.Rhs[i]).(*ast.CallExpr)
+					if !ok {
+						continue
+					}
+					name := c.CalleeName(call)
+					if name == "builtin.append" || strings.HasSuffix(name, "slices.Clone") {
+						r.fail("constructor keeps the exact capacity "+fn, c.Pos(as), fn+" re-allocates the element array with "+name+": the copy's capacity is whatever the allocator rounds up to, so a literal or make of 18+ elements has hidden spare capacity — `a := append(base, 100); b := append(base, 200)` share the element (a[len(base)] reads 200) and base[:len(base)+1] succeeds where Go reports an error")
+					}
+				}
+				return true
+			})
+		}
+	}
 	r.check(exact, "NEWSLICE capacity", c.Pos(sc.Clause), "the literal's data is allocated with capacity == length",
 		"the NEWSLICE handler builds the literal's data with spare capacity (append to nil rounds up to an allocation size class): for an 18-element literal a, b := append(a, 100); c := append(a, 200) write the same slot — b[18] is 200 and b[0] = -1 changes a[0]")
 }
@@ -2466,4 +2513,53 @@ func ruleRepMapIdent(c *Ctx, r *R) {
 	} else {
 		r.undecided("mapType key", "-", "mapType not found")
 	}
+}
+
+// bytesOfStringHelper: a new helper `func(s string) []Value` whose elements are the bytes of
+// s — Byte(s[i]) / Uint8(s[i]) over an index of the string, or a range over []byte(s).
+func (c *Ctx) bytesOfStringHelper(fd *ast.FuncDecl) bool {
+	if fd == nil || fd.Body == nil || fd.Recv != nil || !c.isNewHelper(c.Info.Defs[fd.Name]) {
+		return false
+	}
+	var sp types.Object
+	n := 0
+	for _, f := range fd.Type.Params.List {
+		for _, nm := range f.Names {
+			n++
+			if b, ok := c.Info.Defs[nm].Type().Underlying().(*types.Basic); ok && b.Info()&types.IsString != 0 {
+				sp = c.Info.Defs[nm]
+			}
+		}
+	}
+	if n != 1 || sp == nil {
+		return false
+	}
+	byBytes, byRunes := false, false
+	ast.Inspect(fd.Body, func(m ast.Node) bool {
+		switch x := m.(type) {
+		case *ast.CallExpr:
+			if nm := c.CalleeName(x); (nm == "Byte" || nm == "Uint8") && len(x.Args) == 1 {
+				if ix, ok := unparen(x.Args[0]).(*ast.IndexExpr); ok {
+					if id, ok := unparen(ix.X).(*ast.Ident); ok && c.Obj(id) == sp {
+						byBytes = true
+					}
+				}
+			}
+			if tt, isConv := c.IsConversion(x); isConv && len(x.Args) == 1 {
+				if sl, ok := tt.Underlying().(*types.Slice); ok {
+					if eb, ok := sl.Elem().Underlying().(*types.Basic); ok && eb.Kind() == types.Uint8 {
+						if id, ok := unparen(x.Args[0]).(*ast.Ident); ok && c.Obj(id) == sp {
+							byBytes = true
+						}
+					}
+				}
+			}
+		case *ast.RangeStmt:
+			if id, ok := unparen(x.X).(*ast.Ident); ok && c.Obj(id) == sp {
+				byRunes = true // ranging the string itself decodes runes
+			}
+		}
+		return true
+	})
+	return byBytes && !byRunes
 }
